@@ -449,6 +449,13 @@ def r_replace_assignments(ck: Checker) -> None:
     ck.guard("C1 equality", func, site, f"({lit}.sign == Sign.NoSign and {lit}.atom.guards[0].comparison == ComparisonOperator.Equal) or ({lit}.sign == Sign.Negation and {lit}.atom.guards[0].comparison == ComparisonOperator.NotEqual)", "")
     ck.guard("left side is a variable", func, site, f"{lit}.atom.term.ast_type == ASTType.Variable", "")
     ck.guard("C3 no interval on the right", func, site, f"not has_interval({lit}.atom.guards[0].term)", "")
+    hi = ck.func("utils.ast:has_interval")
+    ith = ck.interp(hi)
+    hp = hi.params()[0]
+    shapes = {unparse(ith.expand(r.value, s_)).replace('"', "'") for r, s_ in ith.returns if r.value is not None}
+    ok_hi = bool(shapes) and all(same(s_, f"bool(collect_ast({hp}, 'Interval'))") or same(s_, f"len(collect_ast({hp}, 'Interval')) > 0") or same(s_, f"collect_ast({hp}, 'Interval') != []") for s_ in shapes)
+    ck.add("has_interval looks for an interval ANYWHERE inside the term", ok_hi, hi, hi.node, f"returns {sorted(shapes)}",
+           "`S = 2*(1..3)` contains an interval below the top: inlining it copies the interval, and every copy expands on its own")
     ck.guard("only rules and objectives", func, site, f"{stm}.ast_type in (ASTType.Rule, ASTType.Minimize)", "")
     nh = single_def(func, "new_heads")
     heads = [n for n in find_nodes(func.node, lambda n: isinstance(n, ast.Assign)) if unparse(n.targets[0]) == "new_heads"]  # type: ignore[attr-defined]
